@@ -63,6 +63,8 @@ def run_scenario(initiator, kind, sender_threads=0, ctt=2.0, deadline=6.0, trigg
     link.hold(b_side)
     result = {"exc": {}}
     expect = {}
+    want_seq = []       # requests_xN: the reply types the N requests must get, in order
+    rep_seq = []
 
     def b_send():
         try:
@@ -80,6 +82,14 @@ def run_scenario(initiator, kind, sender_threads=0, ctt=2.0, deadline=6.0, trigg
             elif kind.startswith("requests_x"):
                 # several requests that want a reply, one per message, on both channels
                 for j in range(int(kind[len("requests_x"):])):
+                    # a burst (more than 3): every third request is a GLOBAL_REQUEST (answered through _send_message, the
+                    # others through _send_user_message), so the expected replies are a fixed pattern of channel replies
+                    # (99/100 -> 99) and global replies (81/82 -> 81) and their order is observable
+                    if int(kind[len("requests_x"):]) > 3 and j % 3 == 2:
+                        m = Message(); m.add_byte(bytes([80])); m.add_string("verif-test@example"); m.add_boolean(True)
+                        want_seq.append(81)
+                        B._send_user_message(m)
+                        continue
                     cb = (chB, chB2)[j % 2]
                     m = Message(); m.add_byte(bytes([98])); m.add_int(cb.remote_chanid)
                     m.add_string("window-change" if B is sess.tc else "exit-status")
@@ -88,6 +98,7 @@ def run_scenario(initiator, kind, sender_threads=0, ctt=2.0, deadline=6.0, trigg
                         m.add_int(80 + j); m.add_int(24); m.add_int(0); m.add_int(0)
                     else:
                         m.add_int(3 + j)
+                    want_seq.append(99)
                     B._send_user_message(m)
             elif kind in ("chan_request_reply", "chan_request_noreply"):
                 m = Message(); m.add_byte(bytes([98])); m.add_int(chB.remote_chanid)
@@ -276,10 +287,11 @@ def run_scenario(initiator, kind, sender_threads=0, ctt=2.0, deadline=6.0, trigg
         elif kind.startswith("requests_x"):
             want = int(kind[len("requests_x"):])
             end = time.time() + deadline
-            nrep = lambda: sum(1 for x in B.packetizer.in_ids[n_bin0:] if x[0] in (99, 100))
+            nrep = lambda: sum(1 for x in B.packetizer.in_ids[n_bin0:] if x[0] in (99, 100, 81, 82))
             while nrep() < want and time.time() < end:
                 time.sleep(0.01)
             delivered = nrep() == want
+            rep_seq = [99 if x[0] in (99, 100) else 81 for x in B.packetizer.in_ids[n_bin0:] if x[0] in (99, 100, 81, 82)]
         elif kind == "gated_user_send":
             delivered = chB.recv(64) == b"gated-user-data"
         elif kind == "open_confirm_inflight":
@@ -322,6 +334,6 @@ def run_scenario(initiator, kind, sender_threads=0, ctt=2.0, deadline=6.0, trigg
            "a_out": outs[:80], "b_out": bouts[:80], "completed": completed,
            "a_active": bool(A.is_active()), "b_active": bool(B.is_active()),
            "delivered": bool(delivered), "usable": bool(echo and A.is_active() and B.is_active()),
-           "user_intact": bool(user_intact), "rk_exc": rk.get("exc", ""), "excs": dict(result["exc"])}
+           "user_intact": bool(user_intact), "want_seq": list(want_seq), "rep_seq": list(rep_seq), "rk_exc": rk.get("exc", ""), "excs": dict(result["exc"])}
     sess.close()
     return obs
